@@ -25,7 +25,7 @@ func TestC12(t *testing.T) {
 	mon.Main(t, mon.Check{
 		ID:    "C12",
 		Level: "exploration",
-		Rule:  "each case draws a GBN scenario (random N, timeouts, keepalive, latency, mild faults, bidirectional traffic with idle gaps), runs it once to collect the virtual instants of its wire events (if that run's bubble freezes, the scenario is repeated on the real clock with a Close by both ends after the fault phase), then re-runs it K times injecting Close at one of those instants (-1ns/0/+1ns) or at a random instant, by client / server / both at the same instant / twice concurrently, with the transport working / blackholed / its send blocking until cancellation; plus handshake-phase cancellation cases, a real-time slice with a transport whose send blocks, a real-time slice that closes a mailbox-level connection whose transport write is blocked by backpressure (relay mailboxes of four messages, peer dead; bound ping+pong+6 s), and a real-time slice that runs a scripted mailbox-level session (closes by either side, relay failures, Server.Close) and then takes the goroutine census of the process. Oracles: Close returns within finSendTimeout+2s of virtual time (it must not wait for resend or sync timers); later Send/Recv fail at once; FIN on the wire when the transport works; peer closes itself when the FIN is delivered; every blocked caller returns; the closed endpoint puts nothing but its FIN on the wire afterwards; no goroutine of gbn alive in the bubble afterwards. (S) self-close, virtual time: keepalive on one side only; a one-way outage (nothing reaches the keepalive side, what it sends arrives) or one transient write error makes the connection close itself while the peer is blocked in Recv: the peer's Recv must fail within 10 s (a FIN must have been sent over the working transport). The in-memory links refuse a write whose context is done, as the mailbox transports do. (M) mailbox client connections set up against a relay that refuses the receive stream, the send stream or both, cancelled through their context: the constructor returns within 20 s and nothing panics afterwards. On the blocking transport half of the client closes are followed 50-350 ms later by a second Close: when that returns a packet is put on the link and the connection's receive loop must not take it. Non-trivial = a Close was injected while the connection was open; distinct = (closer, transport condition, phase bucket, what the send loop was doing).",
+		Rule:  "each case draws a GBN scenario (random N, timeouts, keepalive, latency, mild faults, bidirectional traffic with idle gaps), runs it once to collect the virtual instants of its wire events (if that run's bubble freezes, the scenario is repeated on the real clock with a Close by both ends after the fault phase), then re-runs it K times injecting Close at one of those instants (-1ns/0/+1ns) or at a random instant, by client / server / both at the same instant / twice concurrently, with the transport working / blackholed / its send blocking until cancellation; plus handshake-phase cancellation cases, a real-time slice with a transport whose send blocks, a real-time slice that closes a mailbox-level connection whose transport write is blocked by backpressure (relay mailboxes of four messages, peer dead; bound ping+pong+6 s), and a real-time slice that runs a scripted mailbox-level session (closes by either side, relay failures, Server.Close) and then takes the goroutine census of the process. Oracles: Close returns within finSendTimeout+2s of virtual time (it must not wait for resend or sync timers); later Send/Recv fail at once; FIN on the wire when the transport works; peer closes itself when the FIN is delivered; every blocked caller returns; the closed endpoint puts nothing but its FIN on the wire afterwards; no goroutine of gbn alive in the bubble afterwards. (S) self-close, virtual time: keepalive on one side only; a one-way outage (nothing reaches the keepalive side, what it sends arrives) or one transient write error or one transient read error (the sending direction works) makes the connection close itself while the peer is blocked in Recv: the peer's Recv must fail within 10 s (a FIN must have been sent over the working transport). The in-memory links refuse a write whose context is done, as the mailbox transports do. (M) mailbox client connections set up against a relay that refuses the receive stream, the send stream or both, cancelled through their context: the constructor returns within 20 s and nothing panics afterwards. On the blocking transport half of the client closes are followed 50-350 ms later by a second Close: when that returns a packet is put on the link and the connection's receive loop must not take it. Non-trivial = a Close was injected while the connection was open; distinct = (closer, transport condition, phase bucket, what the send loop was doing).",
 		Assumptions: []string{
 			"goroutine census covers goroutines, not bare time.Ticker objects without a goroutine",
 			"virtual time (synctest): bounds are exact, schedules sampled",
@@ -817,7 +817,7 @@ func runC12SelfClose(c *mon.Case) {
 	} else {
 		conf.PingS, conf.PongS = pp[0], pp[1]
 	}
-	cause := []string{"one-way-outage", "write-error"}[rng.Intn(2)]
+	cause := []string{"one-way-outage", "write-error", "read-error"}[rng.Intn(3)]
 	backlog := rng.Intn(3)
 	wait := time.Duration(rng.Int63n(int64(2*pp[0]) + 1))
 	rep := map[string]any{"kind": "self-close", "conf": conf.String(), "cause": cause, "keepalive_side": map[bool]string{true: "client", false: "server"}[kaClient], "messages_queued_at_the_fault": backlog}
@@ -865,6 +865,13 @@ func runC12SelfClose(c *mon.Case) {
 		switch cause {
 		case "one-way-outage":
 			kaIn.SetBlackhole(true, true)
+		case "read-error":
+			// the next read of the transport that is started fails once:
+			// only the receive direction is affected, sending works
+			kaIn.FailRecvsAfter(0, 1, fmt.Errorf("read: transient transport error (injected)"))
+			if backlog == 0 {
+				backlog = 1 // an acknowledgement has to come back
+			}
 		default:
 			kaOut.FailNextSends(1, fmt.Errorf("write: transient transport error (injected)"))
 			if backlog == 0 {
